@@ -1208,6 +1208,36 @@ func initialWindowRules(r *Report) {
 			}
 		}
 		r.Decide("flow", "(*M/h2.relay).updateInitialWindowSize: the adjustment is new minus old", delta != nil && nsub == 1, "delta = int(v) - int(r.initialWindowSize)", "the stream windows are moved by something other than (new initial size - old initial size): after a SETTINGS change the relay believes in more (or less) credit than the receiver granted", ui.Pos())
+		// ... and "old" is the size before this call: the load that feeds the difference is not
+		// reachable from the store of the new size (computed after it, the difference is always 0)
+		if db, isB := delta.(*ssa.BinOp); isB {
+			g := G(ui)
+			stale := false
+			var oldLoads []ssa.Instruction
+			for x := range w.backSlice(db.Y, flowOpt{}) {
+				if ld, isLd := x.(*ssa.UnOp); isLd && ld.Op == token.MUL {
+					if fa, isFa := ld.X.(*ssa.FieldAddr); isFa && fieldObj(fa).Name() == "initialWindowSize" {
+						oldLoads = append(oldLoads, ld)
+					}
+				}
+			}
+			for _, in := range instrs(ui) {
+				st, isSt := in.(*ssa.Store)
+				if !isSt {
+					continue
+				}
+				fa, isFa := st.Addr.(*ssa.FieldAddr)
+				if !isFa || fieldObj(fa).Name() != "initialWindowSize" {
+					continue
+				}
+				for _, ld := range oldLoads {
+					if g.PathTo([]ssa.Instruction{st}, false, func(ssa.Instruction) bool { return false }, func(i ssa.Instruction) bool { return i == ld }) != nil {
+						stale = true
+					}
+				}
+			}
+			r.Decide("path", "(*M/h2.relay).updateInitialWindowSize: the old size is read before the new one is stored", len(oldLoads) > 0 && !stale, "no path from the store of initialWindowSize to the load the difference uses", "the difference is computed after the new size was stored: it is always 0, open streams keep the windows of the previous setting and overrun (or starve under) the receiver's new limit", db.Pos())
+		}
 		okAdd := false
 		nStores := 0
 		for _, in := range instrs(ui) {
